@@ -12,7 +12,7 @@ def _(p):
     from formulaic import model_matrix
 
     fam = [mc.T(f, l) for f, l in p["terms"]]
-    df = mc.full_frame(p["a"], p["b"])
+    df = mc.full_frame(p["a"], p["b"], index=p.get("index"))
     kw = {"materializer": p["materializer"]} if p.get("materializer") else {}
     mm = model_matrix(p["formula"], df, ensure_full_rank=p["efr"], output=p["output"], **kw)
     if p["output"] == "sparse":
@@ -53,9 +53,11 @@ def _(p):
         df["A"] = pandas.Categorical(list(df["A"]), categories=["w"] + mc.A_LEVELS + ["zz"])
         df["B"] = pandas.Categorical(list(df["B"]), categories=["t"] + mc.B_LEVELS)
     efr, formula = p["efr"], p["formula"]
-    ref = model_matrix(formula, df, ensure_full_rank=efr, output="pandas")
+    drop = p.get("drop")
+    call = (lambda: {"drop_rows": set(drop)}) if drop else (lambda: {})
+    ref = model_matrix(formula, df, ensure_full_rank=efr, output="pandas", **call())
     rl = list(ref.model_spec.column_names)
-    rc = numpy.asarray(ref, dtype=float).reshape((len(df), len(rl)))
+    rc = numpy.asarray(ref, dtype=float).reshape((len(df) - len(drop or ()), len(rl)))
     datas = {"pandas": df}
     try:
         import pyarrow
@@ -68,7 +70,7 @@ def _(p):
     def dense(mm, out):
         if out == "sparse":
             return numpy.asarray(mm.todense(), dtype=float)
-        return numpy.asarray(mm, dtype=float).reshape((len(df), -1))
+        return numpy.asarray(mm, dtype=float).reshape((rc.shape[0], -1))
 
     for dname, data in datas.items():
         for mat in ((None, "narwhals") if dname == "pandas" else ("narwhals",)):
@@ -77,20 +79,22 @@ def _(p):
             for out in ("pandas", "numpy", "sparse"):
                 if p.get("legs") == "sparse+arrow" and not (out == "sparse" or dname == "arrow"):
                     continue
-                for entry in (("model_matrix", "materializer") if p.get("legs") else ("model_matrix", "Formula", "ModelSpec", "materializer")):
+                for entry in (("model_matrix", "materializer", "ModelSpec+overrides") if p.get("legs") else ("model_matrix", "Formula", "ModelSpec", "ModelSpec+overrides", "materializer")):
                     opts = dict(ensure_full_rank=efr, output=out)
                     if mat:
                         opts["materializer"] = mat
                     if entry == "model_matrix":
-                        mm = model_matrix(formula, data, **opts)
+                        mm = model_matrix(formula, data, **opts, **call())
                     elif entry == "Formula":
-                        mm = Formula(formula).get_model_matrix(data, **opts)
+                        mm = Formula(formula).get_model_matrix(data, **opts, **call())
                     elif entry == "ModelSpec":
-                        mm = ModelSpec.from_spec(Formula(formula), **opts).get_model_matrix(data)
+                        mm = ModelSpec.from_spec(Formula(formula), **opts).get_model_matrix(data, **call())
+                    elif entry == "ModelSpec+overrides":
+                        mm = ModelSpec.from_spec(Formula(formula), output="numpy" if out == "pandas" else "pandas").get_model_matrix(data, **call(), **opts)
                     else:
                         m = opts.pop("materializer", None)
                         cls = FormulaMaterializer.for_materializer(m) if m else FormulaMaterializer.for_data(data)
-                        mm = cls(data).get_model_matrix(formula, **opts)
+                        mm = cls(data).get_model_matrix(formula, **opts, **call())
                     tag = f"{entry}/{out}/{mat or 'pandas'}/{dname}"
                     l = list(mm.model_spec.column_names)
                     if l != rl:
@@ -332,14 +336,14 @@ def _(p):
     import pandas
     from formulaic import Formula, model_matrix
 
-    LEVELS = {"A": ["p", "q"], "B": ["r", "s", "t"], "D": ["u", "v"]}
+    LEVELS = {"A": ["p", "q"], "B": ["r", "s", "t"], "D": ["u", "v"], "E": ["w"]}
     results = []
     for point in (0, 1):
         rows = [(a, b, c) for a in LEVELS["A"] for b in LEVELS["B"] for c in LEVELS["D"]] * 3
         n = len(rows)
         num = [((37 * (i + 1) + 101 * point) % 53) / 4.0 + 0.25 + point for i in range(n)]
         df = pandas.DataFrame({"A": pandas.Categorical([r[0] for r in rows], categories=LEVELS["A"]), "B": pandas.Categorical([r[1] for r in rows], categories=LEVELS["B"]),
-                               "D": pandas.Categorical([r[2] for r in rows], categories=LEVELS["D"]), "a": numpy.array(num)})
+                               "D": pandas.Categorical([r[2] for r in rows], categories=LEVELS["D"]), "E": pandas.Categorical(["w"] * n, categories=LEVELS["E"]), "a": numpy.array(num)})
         tl = list(p["terms"])
         if p.get("contrast"):
             tl = [":".join(f"C({f}, contr.{p['contrast']})" if f in LEVELS else f for f in t.split(":")) for t in tl]
@@ -489,6 +493,40 @@ def _(p):
     touched = [j for j, l in enumerate(labels0) if f"{p['var']}[" in l]
     if touched and not numpy.allclose(g[[1, 4]][:, touched], 0):
         return f"unseen-rows-not-zero: {g[[1, 4]][:, touched].tolist()}"
+    return None
+
+
+@replay("c09_redeclared")
+def _(p):
+    import warnings
+
+    import pandas
+    from formulaic import model_matrix
+    from formulaic.errors import DataMismatchWarning
+
+    dtrain = mc.full_frame(_A_TRAIN, _B_TRAIN)
+    out = p["output"]
+    spec = model_matrix(p["formula"], dtrain, output=out).model_spec
+    labels0 = list(spec.column_names)
+    d2 = dtrain.copy()
+    d2[p["var"]] = pandas.Categorical({"A": mc.A_ROWS, "B": mc.B_ROWS}[p["var"]], categories=p["cats"], ordered=(len(p["cats"]) % 2 == 0))
+    with warnings.catch_warnings(record=True) as w:
+        warnings.simplefilter("always")
+        ref = spec.get_model_matrix(dtrain)
+        try:
+            got = spec.get_model_matrix(d2)
+            again = spec.get_model_matrix(dtrain)
+        except Exception as e:
+            return f"raises: {p['formula']!r}: {p['var']} arriving with declared categories {p['cats']} (same rows) raised {type(e).__name__}: {str(e)[:120]}"
+        nw = len([x for x in w if issubclass(x.category, DataMismatchWarning)])
+    for tag, m in (("follow-up", got), ("recorded spec afterwards", again)):
+        if list(m.model_spec.column_names) != labels0:
+            return f"columns-changed: {p['formula']!r}: {tag}: {list(m.model_spec.column_names)} vs recorded {labels0}"
+        r, g = _arr(ref), _arr(m)
+        if r.shape != g.shape or not numpy.allclose(r, g, equal_nan=True):
+            return f"cells-changed: {p['formula']!r}: {tag}: declared categories {p['cats']} of {p['var']} changed the numbers"
+    if nw:
+        return f"spurious-warning: DataMismatchWarning although every observed level was recorded"
     return None
 
 
